@@ -67,10 +67,12 @@ func cmdRun(args []string) {
 	out := fs.String("out", "", "result file (default stdout)")
 	verbose := fs.Bool("v", false, "progress on stderr")
 	params := fs.String("params", "", "harness parameters k=v,...")
+	subShards := fs.Int("sub", 1, "prefix sub-shards per ShardChoice residue")
 	fs.Parse(args)
 
 	cfg := interp.Config{Solver: *solver, QueryTimeout: *qt, MaxPaths: *maxPaths, MaxSteps: *maxSteps, Preempt: *preempt, IntMode: *intmode, Witnesses: *wit, Verbose: *verbose}
 	fmt.Sscanf(*shard, "%d/%d", &cfg.Shard, &cfg.Shards)
+	cfg.SubShards = *subShards
 	cfg.Params = map[string]int{}
 	for _, kv := range strings.Split(*params, ",") {
 		var k string
